@@ -119,27 +119,67 @@ func spendsIn(fn *ssa.Function, field string) []ssa.Instruction {
 	return out
 }
 
-// userCallback: the call invokes a function value that is (after resolving helper boundaries of root's region) a
-// parameter of root whose type is one of the package's callback types (VisitFn, AdvVisitFn, TransformFn).
+// userCallback: the call invokes a function value whose type is one of the package's callback types (VisitFn,
+// AdvVisitFn, TransformFn) and that is not a function of the package itself (after resolving the helper boundaries of
+// root's region): wherever the value travels - a parameter, a field of a state struct, a captured variable - calling it
+// is invoking the user.
 func userCallback(root *ssa.Function, ci ssa.CallInstruction) bool {
+	return callbackType(root, ci) != ""
+}
+
+// callbackType: the name of the callback type the call invokes, "" when it is not a user callback.
+func callbackType(root *ssa.Function, ci ssa.CallInstruction) string {
 	cc := ci.Common()
 	if cc.IsInvoke() || cc.StaticCallee() != nil {
-		return false
+		return ""
 	}
 	if _, isB := cc.Value.(*ssa.Builtin); isB {
-		return false
+		return ""
 	}
 	v := core.RegionOf(root).Canon(cc.Value)
-	prm, ok := v.(*ssa.Parameter)
-	if !ok {
-		return false
+	switch v.(type) {
+	case *ssa.Function, *ssa.MakeClosure:
+		return "" // code of the package (an adapter closure): analysed as code
 	}
-	nt := namedOfType(prm.Type())
-	if nt == nil || nt.Obj().Pkg() == nil || core.RelPkg(nt.Obj().Pkg().Path()) != "traversal" {
-		return false
+	for _, t := range []types.Type{v.Type(), cc.Value.Type()} {
+		nt := namedOfType(t)
+		if nt == nil || nt.Obj().Pkg() == nil || core.RelPkg(nt.Obj().Pkg().Path()) != "traversal" {
+			continue
+		}
+		if _, isSig := nt.Underlying().(*types.Signature); isSig {
+			return nt.Obj().Name()
+		}
 	}
-	_, isSig := nt.Underlying().(*types.Signature)
-	return isSig
+	return ""
+}
+
+// carriesType: fn receives a value of the named type (package traversal) - as a parameter, or as a field of a struct
+// (or pointer to struct) parameter.
+func carriesType(fn *ssa.Function, name string) bool {
+	is := func(t types.Type) bool {
+		nt := namedOfType(t)
+		return nt != nil && nt.Obj().Name() == name && nt.Obj().Pkg() != nil && core.RelPkg(nt.Obj().Pkg().Path()) == "traversal"
+	}
+	for _, prm := range fn.Params {
+		t := prm.Type()
+		if is(t) {
+			return true
+		}
+		if pt, ok := t.Underlying().(*types.Pointer); ok {
+			t = pt.Elem()
+		}
+		if st, ok := t.Underlying().(*types.Struct); ok {
+			if nt := namedOfType(t); nt != nil && nt.Obj().Exported() {
+				continue // Progress, Config: the API's own structs do not carry the callback
+			}
+			for i := 0; i < st.NumFields(); i++ {
+				if is(st.Field(i).Type()) {
+					return true
+				}
+			}
+		}
+	}
+	return false
 }
 
 // descent: the call statically enters a function of the package that leads back to root (the recursion of the walk),
@@ -162,16 +202,44 @@ func isBlockLoad(ci ssa.CallInstruction) bool {
 	return false
 }
 
-// hasPhaseParam returns the parameter of fn whose type is the package's walk-phase enum (an unexported integer enum
-// of package traversal), if any.
-func phaseParam(fn *ssa.Function) *ssa.Parameter {
+// isPhaseType: the package's walk-phase enum (an unexported integer enum of package traversal).
+func isPhaseType(t types.Type) bool {
+	nt := namedOfType(t)
+	return nt != nil && nt.Obj().Pkg() != nil && core.RelPkg(nt.Obj().Pkg().Path()) == "traversal" && !nt.Obj().Exported() && isEnumType(t)
+}
+
+// hasPhase: fn is told the walk phase - by a parameter of the phase enum type, or by a field of that type in an
+// unexported struct parameter (the values of one pass bundled together).
+func hasPhase(fn *ssa.Function) bool {
 	for _, prm := range fn.Params {
-		nt := namedOfType(prm.Type())
-		if nt != nil && nt.Obj().Pkg() != nil && core.RelPkg(nt.Obj().Pkg().Path()) == "traversal" && !nt.Obj().Exported() && isEnumType(prm.Type()) {
-			return prm
+		t := prm.Type()
+		if isPhaseType(t) {
+			return true
+		}
+		if pt, ok := t.Underlying().(*types.Pointer); ok {
+			t = pt.Elem()
+		}
+		if st, ok := t.Underlying().(*types.Struct); ok {
+			if nt := namedOfType(t); nt != nil && nt.Obj().Exported() {
+				continue
+			}
+			for i := 0; i < st.NumFields(); i++ {
+				if isPhaseType(st.Field(i).Type()) {
+					return true
+				}
+			}
 		}
 	}
-	return nil
+	return false
+}
+
+// isPhaseValue: v is the phase an activation was told (any value of the phase enum type that is not a constant).
+func isPhaseValue(v ssa.Value) bool {
+	v = core.Strip(v)
+	if _, isC := v.(*ssa.Const); isC {
+		return false
+	}
+	return isPhaseType(v.Type())
 }
 
 // byRole helpers used by several properties --------------------------------------------------------------------
@@ -256,12 +324,7 @@ func (tr *travRoles) transformFns() []transformFn {
 		if fn.Parent() != nil || !tr.recursive(fn) {
 			continue
 		}
-		has := false
-		for _, prm := range fn.Params {
-			if nt := namedOfType(prm.Type()); nt != nil && nt.Obj().Name() == "TransformFn" {
-				has = true
-			}
-		}
+		has := carriesType(fn, "TransformFn")
 		if !has || token.IsExported(fn.Name()) {
 			continue
 		}
@@ -308,10 +371,5 @@ func (tr *travRoles) isTransformCallee(cal *ssa.Function) bool {
 	if cal == nil || len(cal.Blocks) == 0 || core.FuncPkg(cal) == nil || core.RelPkg(core.FuncPkg(cal).Path()) != "traversal" || !tr.recursive(cal) {
 		return false
 	}
-	for _, prm := range cal.Params {
-		if nt := namedOfType(prm.Type()); nt != nil && nt.Obj().Name() == "TransformFn" {
-			return true
-		}
-	}
-	return false
+	return carriesType(cal, "TransformFn")
 }
